@@ -135,10 +135,16 @@ def apalache(work, module, args, timeout=1200):
     cmd = ['timeout', str(timeout), 'apalache-mc', 'check', '--out-dir=' + out, '--run-dir=' + os.path.join(out, 'run')] + list(args) + [module + '.tla']
     e = dict(os.environ)
     e['JVM_ARGS'] = '-Xmx4g -Djava.io.tmpdir=%s' % out
+    e['JAVA_TOOL_OPTIONS'] = '-Djava.io.tmpdir=%s' % out      # SANY's scratch directories go there too
+    os.makedirs(out, exist_ok=True)
     t0 = time.time()
+    sany_before = {d for d in os.listdir('/tmp') if d.startswith('SANY')}
     r = subprocess.run(cmd, cwd=work.specs, env=e, capture_output=True, text=True, errors='replace')
     txt = r.stdout + r.stderr
     shutil.rmtree(out, True)
+    for d in os.listdir('/tmp'):          # the parser front end leaves SANY* scratch directories in /tmp regardless
+        if d.startswith('SANY') and d not in sany_before:
+            shutil.rmtree(os.path.join('/tmp', d), True)
     if 'The outcome is: NoError' in txt and r.returncode == 0:
         res = 'ok'
     elif 'The outcome is: Error' in txt and 'invariant' in txt and 'violated' in txt:
